@@ -5,16 +5,11 @@
    The table below must be the one of coq/theories/Syntax/Shape.v (bad_pair, xlsx = false); the lemma
    C09_bad_pair_table and the vm_compute proofs of Refuted.v fail if it is not."""
 import sys, json
-bu = ["Cmp", "Concat", "Add", "Sub", "Prod", "Pow", "Neg", "Pct", "Range"]
-np_ = bu + ["At", "Spill"]
 table = []
 def add(p, pos, cs):
     for c in cs: table.append((p, pos, c))
-add("Cmp", "right", ["Cmp"]); add("Concat", "left", ["Cmp"]); add("Concat", "right", ["Cmp", "Concat"])
-add("Add", "left", ["Concat"]); add("Sub", "left", ["Concat"]); add("Add", "right", ["Concat", "Add", "Sub"]); add("Sub", "right", ["Concat"])
-add("Prod", "left", ["Concat"]); add("Prod", "right", ["Concat"])
-add("Neg", "only", ["Cmp", "Concat", "Prod"]); add("Pct", "only", ["Cmp", "Concat", "Add", "Sub", "Prod", "Pow"])
-add("Range", "left", bu); add("Range", "right", np_); add("At", "only", np_); add("Spill", "only", np_)
+# since commit 1fc9128: only the three associative pairs are printed bare
+add("Concat", "right", ["Concat"]); add("Add", "right", ["Add", "Sub"])
 child = {"Cmp": "(ECmp CLt n1 n2)", "Concat": "(EConcat n1 n2)", "Add": "(ESum SAdd n1 n2)", "Sub": "(ESum SMinus n1 n2)", "Prod": "(EProd PTimes n2 n3)",
          "Pow": "(EPow n2 n3)", "Neg": "(ENeg n1)", "Pct": "(EPct n1)", "Range": "(ERangeOp xv r0)", "At": "(EAt false r0)", "Spill": "(ESpill r0)"}
 kn = {"Cmp": "KCmp", "Concat": "KConcat", "Add": "(KSum SAdd)", "Sub": "(KSum SMinus)", "Prod": "KProd", "Pow": "KPow", "Neg": "KNeg", "Pct": "KPct", "Range": "KRangeOp", "At": "KAt", "Spill": "KSpill"}
@@ -28,6 +23,27 @@ def wit(p, pos, c):
     con = {"Cmp": "ECmp CLt", "Concat": "EConcat", "Add": "ESum SAdd", "Sub": "ESum SMinus", "Prod": "EProd PTimes", "Range": "ERangeOp"}[p]
     if p == "Range": return "%s %s xv" % (con, x) if pos == "left" else "%s xv %s" % (con, x)
     return "%s %s n3" % (con, x) if pos == "left" else "%s n3 %s" % (con, x)
+bu = ["Cmp", "Concat", "Add", "Sub", "Prod", "Pow", "Neg", "Pct", "Range"]
+np_ = bu + ["At", "Spill"]
+former = []
+def addf(p, pos, cs):
+    for c in cs:
+        if (p, pos, c) not in table: former.append((p, pos, c))
+# the table before commit 1fc9128 (63 triples); the 60 that are not in `table` are repaired
+addf("Cmp", "right", ["Cmp"]); addf("Concat", "left", ["Cmp"]); addf("Concat", "right", ["Cmp", "Concat"])
+addf("Add", "left", ["Concat"]); addf("Sub", "left", ["Concat"]); addf("Add", "right", ["Concat", "Add", "Sub"]); addf("Sub", "right", ["Concat"])
+addf("Prod", "left", ["Concat"]); addf("Prod", "right", ["Concat"])
+addf("Neg", "only", ["Cmp", "Concat", "Prod"]); addf("Pct", "only", ["Cmp", "Concat", "Add", "Sub", "Prod", "Pow"])
+addf("Range", "left", bu); addf("Range", "right", np_); addf("At", "only", np_); addf("Spill", "only", np_)
+if "--former-list" in sys.argv:
+    for t in former: print("%s<-%s:%s" % (t[0], t[2], t[1]))
+    sys.exit(0)
+if "--former" in sys.argv:
+    print("(* the 60 witnesses of the pairs repaired by commit 1fc9128: each now comes back *)")
+    print("Lemma former_witnesses_roundtrip :")
+    print("  " + " /\\\n  ".join("parse m_rc nm0 env0 (glue true (print m_rc nm0 (%s))) = Some (%s, [])" % (wit(*t), wit(*t)) for t in former) + ".")
+    print("Proof. repeat split; vm_compute; reflexivity. Qed.")
+    sys.exit(0)
 if "--list" in sys.argv:
     for t in table: print("%s<-%s:%s" % (t[0], t[2], t[1]))
     sys.exit(0)
